@@ -248,3 +248,69 @@ package poseidon
 //@   props C11 C17
 //@   circuit sound-only
 //@   ensures chipok(res.gl)
+
+// ------------------------------------------------------------------ Poseidon layers over GF(p^2) (used by PoseidonGate, C15)
+// The same layers as above with GF(p^2) state elements and base-field constants (c, 0); every operation is reduced.
+//@ def canonStateE(s) = forall(i, 0, 12, canonQE(s[i]))
+//@ def qe_c(x) = tuple(x, 0)
+//@ def qe_pow7(x) = qe_mulo(qe_mulo(qe_mulo(x, x), qe_mulo(x, x)), qe_mulo(x, qe_mulo(x, x)))
+//@ def spe_const(s, r) = mktuple(12, i, qe_addo(s[i], qe_c(poseidon.ALL_ROUND_CONSTANTS[i + 12*r])))
+//@ def spe_sbox(s) = mktuple(12, i, qe_pow7(s[i]))
+//@ def spe_mds_row(v, r) = qe_addo(iterate(12, i, acc, tuple(0, 0), qe_addo(acc, qe_mulo(v[(i + r) % 12], qe_c(poseidon.MDS_MATRIX_CIRC[i])))), qe_mulo(v[r], qe_c(poseidon.MDS_MATRIX_DIAG[r])))
+//@ def spe_mds(s) = mktuple(12, r, spe_mds_row(s, r))
+//@ def spe_pfirst(s) = mktuple(12, i, qe_addo(s[i], qe_c(poseidon.FAST_PARTIAL_FIRST_ROUND_CONSTANT[i])))
+//@ def spe_pinit_col(s, d) = iterate(11, k, acc, tuple(0, 0), qe_addo(acc, qe_mulo(s[k + 1], qe_c(poseidon.FAST_PARTIAL_ROUND_INITIAL_MATRIX[k][d - 1]))))
+//@ def spe_pinit(s) = mktuple(12, d, ite(d == 0, s[0], spe_pinit_col(s, ite(d == 0, 1, d))))
+//@ def spe_pfast_d(s, r) = iterate(11, k, acc, qe_mulo(s[0], qe_c(poseidon.MDS0TO0)), qe_addo(acc, qe_mulo(s[k + 1], qe_c(poseidon.FAST_PARTIAL_ROUND_W_HATS[r][k]))))
+//@ def spe_pfast(s, r) = mktuple(12, i, ite(i == 0, spe_pfast_d(s, r), qe_addo(qe_mulo(s[0], qe_c(poseidon.FAST_PARTIAL_ROUND_VS[r][ite(i == 0, 0, i - 1)])), s[i])))
+
+//@ func (c *GoldilocksChip) ConstantLayerExtension(state GoldilocksStateExtension, roundCounter *int) (res GoldilocksStateExtension)
+//@   props C15 C05
+//@   circuit
+//@   requires chipok(c.Gl) && canonStateE(state) && 0 <= *roundCounter && *roundCounter < 30
+//@   ensures canonStateE(res) && *roundCounter == old(*roundCounter)
+//@   ensures res == spe_const(state, *roundCounter)
+
+//@ func (c *GoldilocksChip) SBoxMonomialExtension(x gl.QuadraticExtensionVariable) (res gl.QuadraticExtensionVariable)
+//@   props C15 C05
+//@   circuit
+//@   requires chipok(c.Gl) && canonQE(x)
+//@   ensures canonQE(res) && res == qe_pow7(x)
+
+//@ func (c *GoldilocksChip) SBoxLayerExtension(state GoldilocksStateExtension) (res GoldilocksStateExtension)
+//@   props C15 C05
+//@   circuit
+//@   requires chipok(c.Gl) && canonStateE(state)
+//@   ensures canonStateE(res) && res == spe_sbox(state)
+
+//@ func (c *GoldilocksChip) MdsRowShfExtension(r int, v GoldilocksStateExtension) (res gl.QuadraticExtensionVariable)
+//@   props C15 C05
+//@   circuit
+//@   requires chipok(c.Gl) && canonStateE(v) && 0 <= r && r < 12
+//@   cases r 0 12
+//@   ensures canonQE(res) && res == spe_mds_row(v, r)
+
+//@ func (c *GoldilocksChip) MdsLayerExtension(state_ GoldilocksStateExtension) (res GoldilocksStateExtension)
+//@   props C15 C05
+//@   circuit
+//@   requires chipok(c.Gl) && canonStateE(state_)
+//@   ensures canonStateE(res) && res == spe_mds(state_)
+
+//@ func (c *GoldilocksChip) PartialFirstConstantLayerExtension(state GoldilocksStateExtension) (res GoldilocksStateExtension)
+//@   props C15 C05
+//@   circuit
+//@   requires chipok(c.Gl) && canonStateE(state)
+//@   ensures canonStateE(res) && res == spe_pfirst(state)
+
+//@ func (c *GoldilocksChip) MdsPartialLayerInitExtension(state GoldilocksStateExtension) (res GoldilocksStateExtension)
+//@   props C15 C05
+//@   circuit
+//@   requires chipok(c.Gl) && canonStateE(state)
+//@   ensures canonStateE(res) && res == spe_pinit(state)
+
+//@ func (c *GoldilocksChip) MdsPartialLayerFastExtension(state GoldilocksStateExtension, r int) (res GoldilocksStateExtension)
+//@   props C15 C05
+//@   circuit
+//@   requires chipok(c.Gl) && canonStateE(state) && 0 <= r && r < 22
+//@   cases r 0 22
+//@   ensures canonStateE(res) && res == spe_pfast(state, r)
